@@ -264,6 +264,16 @@ func evalCons(c cons, v string) int {
 		return 0
 	}
 	argInt := func(i int) int { n, _ := strconv.Atoi(c.Args[i]); return n }
+	// the length constraints have a second, all-lower-case spelling (exported as
+	// ConstraintMinLenLower, ConstraintMaxLenLower, ConstraintBetweenLenLower)
+	switch c.Kind {
+	case "minlen":
+		c.Kind = "minLen"
+	case "maxlen":
+		c.Kind = "maxLen"
+	case "betweenlen":
+		c.Kind = "betweenLen"
+	}
 	if c.Ovr {
 		if o := overrideOf(c.Kind); o != nil {
 			return tri(o.f(v, c.Args), true)
@@ -381,6 +391,10 @@ var consPool = []consSpec{
 	{c: cons{Kind: "maxLen", Args: []string{"3"}}, good: []string{"a", "abc", "12"}, bad: []string{"abcd", "12345"}},
 	{c: cons{Kind: "len", Args: []string{"2"}}, good: []string{"ab", "12"}, bad: []string{"a", "abc", "1234"}},
 	{c: cons{Kind: "betweenLen", Args: []string{"2", "4"}}, good: []string{"ab", "abc", "abcd"}, bad: []string{"a", "abcde"}},
+	// the lower-case spellings of the length constraints
+	{c: cons{Kind: "minlen", Args: []string{"4"}}, good: []string{"abcd", "abcde", "12345678"}, bad: []string{"abc", "a", "12"}},
+	{c: cons{Kind: "maxlen", Args: []string{"3"}}, good: []string{"a", "abc", "12"}, bad: []string{"abcd", "12345"}},
+	{c: cons{Kind: "betweenlen", Args: []string{"2", "4"}}, good: []string{"ab", "abc", "abcd"}, bad: []string{"a", "abcde"}},
 	{c: cons{Kind: "min", Args: []string{"18"}}, good: []string{"18", "19", "100"}, bad: []string{"17", "0", "abc", "1x"}, odd: []string{"+18", "18446744073709551616", "123456789012345678901234"}},
 	{c: cons{Kind: "max", Args: []string{"120"}}, good: []string{"120", "91", "0"}, bad: []string{"121", "1000", "abc", "18446744073709551616", "123456789012345678901234"}, odd: []string{"+3", "9223372036854775808"}},
 	{c: cons{Kind: "range", Args: []string{"18", "120"}}, good: []string{"18", "120", "91"}, bad: []string{"17", "121", "x", "9", "18446744073709551616", "123456789012345678901234"}, odd: []string{"9223372036854775808"}},
